@@ -26,7 +26,8 @@ CONSTANTS Classes,     \* subset of {"Polygon", "HPolygon", "Segment", "Tangent"
           K,           \* base units 1..K
           MaxWord,     \* at most this many transformations applied to one unit
           MaxOps,      \* state-changing calls after the constructor
-          MaxSize      \* bound on the number of units of an object
+          MaxSize,     \* bound on the number of units of an object
+          WithQueries  \* FALSE: leave the (stuttering) query actions out of the emitted transition system
 
 VARIABLES cls, built, shape, pc, dc, nops, last
 
@@ -164,7 +165,7 @@ Next ==
   \/ Stack
   \/ \E which \in {"rev", "unit", "pair"} : Combine(which)
   \/ \E dt \in {"complex128", "float32", "float64"} : AsType(dt)
-  \/ \E q \in Queries(cls) : Query(q)
+  \/ WithQueries /\ \E q \in Queries(cls) : Query(q)
 
 (***************************************************************************)
 (* Invariants                                                              *)
